@@ -535,7 +535,11 @@ def format_fractional_rational(value: FractionalSymbolicDuration) -> str:
     is always rational ("a/b")
     """
 
-    if value.denominator == 1 and value.tuple_div is None:
+    if (
+        value.denominator == 1
+        and value.tuple_div is None
+        and value.add_components is None
+    ):
         out = f"{value.numerator}/1"
 
     else:
